@@ -517,6 +517,15 @@ def whitelist_tree_roots_ok(prog) -> bool:
             seeds = [n for n in ast.walk(st) if isinstance(n, ast.Assign) and isinstance(n.value, ast.Name) and n.value.id == "WHITELIST_TREE"]
             stores = [n for n in ast.walk(st) if isinstance(n, ast.Subscript) and isinstance(n.ctx, ast.Store)]
             if inner and seeds and stores:
+                # ... and the list is complete when the tree is built: nothing adds to / rebinds WHITELIST after the building loop
+                later = m.tree.body[m.tree.body.index(st) + 1:]
+                for s2 in later:
+                    for n in ast.walk(s2):
+                        if isinstance(n, ast.Call) and isinstance(n.func, ast.Attribute) and n.func.attr in ("append", "extend", "insert", "__iadd__") and dotted(n.func.value) == "WHITELIST":
+                            return False
+                        if isinstance(n, (ast.Assign, ast.AugAssign)) and any(dotted(t) == "WHITELIST" or (isinstance(t, ast.Subscript) and dotted(t.value) == "WHITELIST")
+                                                                                for t in (n.targets if isinstance(n, ast.Assign) else [n.target])):
+                            return False
                 return True
     return False
 
